@@ -1550,7 +1550,6 @@ namespace xsimd
             using i_type = batch<int_type, A>;
 
             batch_type x = self;
-            i_type hx = ::xsimd::bitwise_cast<int_type>(x) >> 32;
             i_type k(0);
             auto isnez = (self != batch_type(0.));
 #ifndef XSIMD_NO_DENORMALS
@@ -1561,6 +1560,7 @@ namespace xsimd
                 x = select(test, x * batch_type(18014398509481984ull), x);
             }
 #endif
+            i_type hx = ::xsimd::bitwise_cast<int_type>(x) >> 32; // after the rescaling of denormal lanes
             hx += 0x3ff00000 - 0x3fe6a09e;
             k += (hx >> 20) - 0x3ff;
             batch_type dk = to_float(k);
@@ -1639,7 +1639,6 @@ namespace xsimd
             using int_type = as_integer_t<double>;
             using i_type = batch<int_type, A>;
             batch_type x = self;
-            i_type hx = ::xsimd::bitwise_cast<int_type>(x) >> 32;
             i_type k(0);
             auto isnez = (self != batch_type(0.));
 #ifndef XSIMD_NO_DENORMALS
@@ -1650,6 +1649,7 @@ namespace xsimd
                 x = select(test, x * batch_type(18014398509481984ull), x);
             }
 #endif
+            i_type hx = ::xsimd::bitwise_cast<int_type>(x) >> 32; // after the rescaling of denormal lanes
             hx += 0x3ff00000 - 0x3fe6a09e;
             k += (hx >> 20) - 0x3ff;
             hx = (hx & i_type(0x000fffff)) + 0x3fe6a09e;
@@ -1772,7 +1772,6 @@ namespace xsimd
             using int_type = as_integer_t<double>;
             using i_type = batch<int_type, A>;
             batch_type x = self;
-            i_type hx = ::xsimd::bitwise_cast<int_type>(x) >> 32;
             i_type k(0);
             auto isnez = (self != batch_type(0.));
 #ifndef XSIMD_NO_DENORMALS
@@ -1783,6 +1782,7 @@ namespace xsimd
                 x = select(test, x * batch_type(18014398509481984ull), x);
             }
 #endif
+            i_type hx = ::xsimd::bitwise_cast<int_type>(x) >> 32; // after the rescaling of denormal lanes
             hx += 0x3ff00000 - 0x3fe6a09e;
             k += (hx >> 20) - 0x3ff;
             hx = (hx & i_type(0x000fffff)) + 0x3fe6a09e;
